@@ -113,7 +113,7 @@ _stat_re = re.compile(r"^(\d[\d,]*) states generated, (\d[\d,]*) distinct states
 
 
 def tlc(module, cfg, workers=1, env=None, heap="4g", gc="serial", timeout=3600, tag=None,
-        extra=None, simulate=None, print_prefix="<<"):
+        extra=None, simulate=None, print_prefix="<<", quiet=False):
     """Runs TLC on spec/<module>.tla with spec/<cfg>.  Returns TlcResult.
     Tool failures raise ToolError; property violations are reported in
     result.violated (never raised)."""
@@ -186,8 +186,10 @@ def tlc(module, cfg, workers=1, env=None, heap="4g", gc="serial", timeout=3600, 
     done = any("Model checking completed. No error has been found." in l or
                "Finished in" in l for l in tail)
     if r.errors and not r.violated:
-        sys.stdout.write(r.raw_tail + "\n")
-        raise ToolError("TLC failed on %s: %s" % (module, r.errors[0]))
+        if not quiet:
+            sys.stdout.write(r.raw_tail + "\n")
+        detail = next((l for l in tail if l.startswith(("Overflow", "Attempted", "The exception", "In evaluation"))), "")
+        raise ToolError("TLC failed on %s: %s %s" % (module, r.errors[0], detail))
     if not done:
         sys.stdout.write(r.raw_tail + "\n")
         raise ToolError("TLC did not finish on %s" % module)
@@ -288,13 +290,14 @@ def validate_trace(tv_module, trace_path, jvms=8, cfg="TV.cfg", heap="3g", timeo
         return 0, 0, []
     lines = open(trace_path).readlines()
 
-    def one(part):
-        pp, base = part
+    budget = {"launches": 0}
+
+    def run_part(pp, base, quiet=False):
         e = {"TRACE": pp}
         if env:
             e.update(env)
         r = tlc(tv_module, cfg, workers=1, env=e, heap=heap, timeout=timeout,
-                tag="%s.%d" % (tv_module, base))
+                tag="%s.%d" % (tv_module, base), quiet=quiet)
         stat = None
         done = None
         bad = []
@@ -314,6 +317,57 @@ def validate_trace(tv_module, trace_path, jvms=8, cfg="TV.cfg", heap="3g", timeo
         if r.violated:
             sys.stdout.write(r.raw_tail + "\n")
             raise ToolError("%s: unexpected TLC error: %s" % (tv_module, r.violated))
+        return stat, bad
+
+    def isolate(plines, base, why):
+        """A record the specification cannot even evaluate (arithmetic beyond the modelled
+        range, an index outside a structure, a missing field) is not an observation it allows:
+        find such records by bisection and report them as rejected."""
+        if len(plines) == 1:
+            try:
+                key = json.loads(plines[0]).get("k")
+            except ValueError:
+                key = None
+            return ["TVSTAT", 1, 1], [{"index": base, "key": str(key), "info": ["unevaluable", why[:300]]}]
+        budget["launches"] += 2
+        if budget["launches"] > 120:
+            # too many to isolate one by one: report the chunk through its first record
+            try:
+                key = json.loads(plines[0]).get("k")
+            except ValueError:
+                key = None
+            return ["TVSTAT", len(plines), len(plines)], [{"index": base, "key": str(key), "info": [
+                "unevaluable", "one or more of the %d records from here on; %s" % (len(plines), why[:200])]}]
+        mid = len(plines) // 2
+        tot = [0, 0]
+        bad = []
+        for off, chunk in ((0, plines[:mid]), (mid, plines[mid:])):
+            pp = "%s.iso%d_%d" % (trace_path, base + off, len(chunk))
+            with open(pp, "w") as f:
+                f.writelines(chunk)
+            try:
+                stat, b = run_part(pp, base + off, quiet=True)
+            except ToolError as ex:
+                if "TLC failed on" not in str(ex):
+                    raise
+                stat, b = isolate(chunk, base + off, str(ex))
+            finally:
+                if os.path.exists(pp):
+                    os.unlink(pp)
+            tot[0] += int(stat[1])
+            tot[1] += int(stat[2]) if len(stat) > 2 else int(stat[1])
+            bad += b
+        return ["TVSTAT", tot[0], tot[1]], bad
+
+    def one(part):
+        pp, base = part
+        try:
+            stat, bad = run_part(pp, base, quiet=True)
+        except ToolError as ex:
+            # an evaluation error inside the TV module (not a parse error of the module itself)
+            if "TLC failed on" not in str(ex) or "Parsing or semantic analysis failed" in str(ex):
+                raise
+            stat, bad = isolate(open(pp).readlines(), base, str(ex))
         os.unlink(pp)
         return stat, bad
 
